@@ -81,6 +81,12 @@ def _coqc(path: str, timeout: int = 600) -> tuple[int, str]:
     return pr.returncode, pr.stdout + pr.stderr
 
 
+class CaseTermError(RuntimeError):
+    def __init__(self, index, msg):
+        super().__init__(msg)
+        self.index = index
+
+
 def eval_cases(prop_id: str, run_module: str, terms: list, judge: str = "judge", shard: int = 400,
                tag: str = "cases", extra: str | None = None) -> tuple[list[tuple[int, bool, bool, list[int]]], list[str]]:
     """Evaluate `judge` on every case term inside Coq (vm_compute); returns the failing
@@ -90,6 +96,7 @@ def eval_cases(prop_id: str, run_module: str, terms: list, judge: str = "judge",
     shutil.rmtree(d, ignore_errors=True)
     os.makedirs(d)
     files = []
+    first_case_line = {}
     for si in range(0, len(terms), shard):
         pr = Printer()
         body = []
@@ -98,6 +105,7 @@ def eval_cases(prop_id: str, run_module: str, terms: list, judge: str = "judge",
             body.append(f"Definition c_{i} : case := {pr.p(t)}.")
         body.append("Definition cases : list case := [" + "; ".join(f"c_{i}" for i in range(len(chunk))) + "].")
         src = [f"From Cashews Require Import Base.Prelude {run_module}.", "Set Printing Width 1000000.", "Set Printing Depth 1000000."]
+        first_case_line[si] = len(src) + sum(d.count("\n") + 1 for d in pr.defs) + 1      # where `Definition c_0` lands in the file
         src += pr.defs + body
         src.append(f"Eval vm_compute in (failing {judge} cases).")
         if extra:
@@ -115,7 +123,10 @@ def eval_cases(prop_id: str, run_module: str, terms: list, judge: str = "judge",
     with cf.ThreadPoolExecutor(max_workers=min(12, os.cpu_count() or 4)) as ex:
         for si, path, rc, out in ex.map(one, files):
             if rc != 0:
-                raise RuntimeError(f"coqc failed on {path} (rc={rc}):\n{out[-3000:]}")
+                # a term that does not type-check: an observation outside the domain of the model's types (the pinned tree never produces one)
+                m_ = re.search(r'line (\d+), characters', out)
+                idx = si + (int(m_.group(1)) - first_case_line[si]) if m_ else None
+                raise CaseTermError(idx if idx is not None and si <= idx < si + shard else None, f"coqc failed on {path} (rc={rc}):\n{out[-3000:]}")
             m = re.findall(r"=\s*(.*?)\n\s*:\s", out, re.S)
             if not m:
                 raise RuntimeError(f"cannot parse coqc output of {path}:\n{out[-2000:]}")
@@ -298,7 +309,11 @@ def run(prop, argv=None) -> int:
     t_impl = _real_time() - t_impl
     t_coq = _real_time()
     terms = [_term(prop, pid, c, o) for c, o in zip(cases, observed)]
-    fails, _ = eval_cases(pid, prop.RUN_MODULE, terms)
+    try:
+        fails, _ = eval_cases(pid, prop.RUN_MODULE, terms)
+    except CaseTermError as e:
+        _escape(pid, cases[e.index] if e.index is not None and e.index < len(cases) else None,
+                "the observation of a case is outside the domain of the model's types (the generated term does not type-check; on the pinned tree every case does): " + str(e)[-600:])
     t_coq = _real_time() - t_coq
     nontrivial = set()
     for c, o in zip(cases, observed):
